@@ -4,7 +4,8 @@ import core
 import tie
 
 RULE = ("all lists and strings of length 0..4 (quick) / 0..5 (thorough) x all indices and bounds in [-2, len+2] plus omitted "
-        "bounds x {read, element assign, range assign with rhs of length 0..len+1 as list and as string, concatenation laws}; "
+        "bounds x {read, element assign, range assign with rhs of length 0..len+1 as list and as string, concatenation laws}, concatenation through `+=` on every "
+        "kind of target (variable, element, property, string key, nested) for lists and strings; "
         "Python slicing with explicit domain checks is the oracle; every operation predicted to fail runs in its own script; "
         "non-trivial = distinct (sequence kind, length, operation, a, b, rhs length, predicted outcome)")
 ASSUMPTIONS = ["strings are indexed by UTF-8 byte; slices that cut a multi-byte character are compared byte-wise in-language"]
@@ -126,6 +127,39 @@ def concat_fresh_cases(ok_scripts):
             ok_scripts.append((("list", n, "concat-fresh", form), src, render_list(xs) + render_list(new) + render_list(xs) + "false\n"))
 
 
+def concat_target_cases(ok_scripts):
+    """`t += rhs` is `t = t + rhs` (left operand first) whatever kind of target `t` is: variable, element, property, index
+    with a string key, nested element; for lists and for strings; element k of the result is element k of the left operand
+    for k < len(left), else element k - len(left) of the right one"""
+    seqs = [("list", [1, 2], [3]), ("list", [], [7, 8]), ("list", [5], []), ("list", [1, 2, 3], [1, 2]),
+            ("str", "ab", "cd"), ("str", "", "xy"), ("str", "q", ""), ("str", "é", "a€")]
+    targets = [("var", "t := @L\n", "t"), ("elem", "xs := [0, @L, 0]\n", "xs[1]"), ("prop", 'o := {"k": @L, "z": 0}\n', "o.k"),
+               ("index-key", 'o := {"k": @L, "z": 0}\n', 'o["k"]'), ("nested", "xs := [[@L], 0]\n", "xs[0][0]"),
+               ("prop-of-elem", 'xs := [{"k": @L}]\n', "xs[0].k")]
+    for kind, left, right in seqs:
+        lit = (lambda v: lit_list(v)) if kind == "list" else (lambda v: '"' + v + '"')
+        lb = left if kind == "list" else list(left.encode("utf-8"))
+        rb = right if kind == "list" else list(right.encode("utf-8"))
+        for tname, decl, t in targets:
+            body = [decl.replace("@L", lit(left)).rstrip("\n"), f"l := {lit(left)}", f"r := {lit(right)}", f"{t} += r"]
+            exp = []
+            body.append(f"print({t} == (l + r))")
+            exp.append("true\n")
+            if kind == "list":
+                body.append(f"print({t})")
+                exp.append(render_list(left + right))
+            elif all(ord(c) < 128 for c in left + right):
+                body.append(f"print({t})")
+                exp.append(left + right + "\n")
+            for k in range(len(lb) + len(rb)):
+                src = f"l[{k}]" if k < len(lb) else f"r[{k - len(lb)}]"
+                body.append(f"print({t}[{k}] == {src})")
+                exp.append("true\n")
+            body.append(f"print(l == {lit(left)})\nprint(r == {lit(right)})")
+            exp.append("true\ntrue\n")
+            ok_scripts.append(((kind, len(lb), "concat-assign", tname, len(rb)), "\n".join(body) + "\n", "".join(exp)))
+
+
 def cases_for_str(chars, ok_scripts, fail_scripts):
     s = "".join(chars)
     bs = s.encode("utf-8")
@@ -203,6 +237,7 @@ def run(ctx, model_ok):
     nonint_cases(fail_scripts)
     multibyte_rset_cases(ok_scripts, fail_scripts)
     concat_fresh_cases(ok_scripts)
+    concat_target_cases(ok_scripts)
     ctx.cov["exhaustive"] = True
     for label, cs, must_fail in (("succeeding", ok_scripts, False), ("failing", fail_scripts, True)):
         srcs = [c[1] for c in cs]
